@@ -4,6 +4,7 @@ package main
 
 import (
 	"fmt"
+	"sort"
 	"go/token"
 	"strings"
 
@@ -11,6 +12,30 @@ import (
 )
 
 func init() { register("C17", ruleC17) }
+
+// naturalLoopOf: the blocks of the natural loop with header h (h, and every block that reaches a
+// back-edge tail of h without passing h).
+func naturalLoopOf(h *ssa.BasicBlock) map[*ssa.BasicBlock]bool {
+	in := map[*ssa.BasicBlock]bool{h: true}
+	var work []*ssa.BasicBlock
+	for _, p := range h.Preds {
+		if h.Dominates(p) && !in[p] {
+			in[p] = true
+			work = append(work, p)
+		}
+	}
+	for len(work) > 0 {
+		b := work[len(work)-1]
+		work = work[:len(work)-1]
+		for _, p := range b.Preds {
+			if !in[p] {
+				in[p] = true
+				work = append(work, p)
+			}
+		}
+	}
+	return in
+}
 
 // proveParallel shows, coinductively over the phi webs, that values a and b evolve in lock step:
 // they are phis of the same block whose incoming values are pairwise parallel, or both "x + k" with
@@ -536,15 +561,51 @@ func ruleC17(c *Ctx) {
 		c.judge(stR, "RETEST", "shift after "+testDesc, sh.Pos(), "the shifted window is re-tested by the loop condition and bounded by len(debruijn)", why)
 		// FRESHCHECK: every path from this shift to the append must re-enter, from outside, every loop that iterates over tests
 		if len(testLoops) == 0 {
+			// loops that iterate over tests, whatever their form (range, counted, nested per strand): loops
+			// that do not contain the append and do contain an inner loop (the slide loop of one test)
+			isHeader := func(b *ssa.BasicBlock) bool {
+				for _, p := range b.Preds {
+					if b.Dominates(p) {
+						return true
+					}
+				}
+				return false
+			}
+			hasTest := func(loop map[*ssa.BasicBlock]bool) bool {
+				for lb := range loop {
+					for _, in := range lb.Instrs {
+						if cl, ok := in.(*ssa.Call); ok {
+							n := calleeName(cl)
+							if n == "strings.Contains" || n == "strings.Index" || n == "bytes.Contains" || n == "bytes.Index" {
+								return true
+							}
+							if _, isB := cl.Call.Value.(*ssa.Builtin); cl.Call.StaticCallee() == nil && !cl.Call.IsInvoke() && !isB {
+								return true
+							}
+						}
+					}
+				}
+				return false
+			}
 			for _, b := range cb.Blocks {
-				for _, ins := range b.Instrs {
-					if ph, ok := ins.(*ssa.Phi); ok && ph.Comment == "rangeindex" {
+				if !isHeader(b) {
+					continue
+				}
+				loop := naturalLoopOf(b)
+				if loop[app.Block()] {
+					continue
+				}
+				for inner := range loop {
+					if inner != b && isHeader(inner) && hasTest(naturalLoopOf(inner)) {
 						testLoops = append(testLoops, b)
+						break
 					}
 				}
 			}
+			sort.Slice(testLoops, func(i, j int) bool { return testLoops[i].Index < testLoops[j].Index })
 		}
 		var stale []string
+		staleKinds := map[string]bool{}
 		for _, lh := range testLoops {
 			// pre-header edges: preds of lh that lh does not dominate
 			avoid := map[*ssa.BasicBlock]bool{}
@@ -555,9 +616,53 @@ func ruleC17(c *Ctx) {
 			}
 			if reachesAvoiding(blk, app.Block(), avoid) {
 				stale = append(stale, "loop at "+c.W.pos(lh.Instrs[0].Pos()))
+				// what the loop tests, read from its body: a search of the window for a text (ban) or a call of
+				// a function value on it (filter); the spelling of the loop itself does not matter
+				kind := ""
+				inLoopOf := naturalLoopOf(lh)
+				for _, lb := range cb.Blocks {
+					if !inLoopOf[lb] {
+						continue
+					}
+					for _, in := range lb.Instrs {
+						cl, ok := in.(*ssa.Call)
+						if !ok {
+							continue
+						}
+						switch n := calleeName(cl); {
+						case n == "strings.Contains" || n == "strings.Index" || n == "bytes.Contains" || n == "bytes.Index":
+							if !strings.Contains(kind, "bans") {
+								kind += "+bans"
+							}
+						case cl.Call.StaticCallee() == nil && !cl.Call.IsInvoke():
+							if _, isB := cl.Call.Value.(*ssa.Builtin); !isB && !strings.Contains(kind, "filters") {
+								kind += "+filters"
+							}
+						}
+					}
+				}
+				kind = strings.TrimPrefix(kind, "+")
+				if kind == "" {
+					kind = "tests"
+				}
+				for _, k1 := range strings.Split(kind, "+") {
+					staleKinds[k1] = true
+				}
 			}
 		}
-		c.check(len(stale) == 0, "FRESHCHECK", "tests restarted after shift in "+testDesc, sh.Pos(), "after this shift every test loop is restarted before the barcode is accepted", "after this shift the barcode can be appended without re-running the tests of "+strings.Join(stale, ", ")+": an earlier verdict (ban, reverse complement or filter) is stale for the shifted window")
+		var kinds []string
+		for k := range staleKinds {
+			kinds = append(kinds, k)
+		}
+		sort.Strings(kinds)
+		// (what goes stale – bans, filters – is printed in the message but is not part of the obligation's
+		// name: a refactor that merges the ban and filter lists into one list of rejection functions keeps
+		// the defect and must keep its name)
+		staleNote := ""
+		if len(kinds) > 0 {
+			staleNote = " [stale: " + strings.Join(kinds, "+") + "]"
+		}
+		c.check(len(stale) == 0, "FRESHCHECK", "tests restarted after shift in "+testDesc, sh.Pos(), "after this shift every test loop is restarted before the barcode is accepted", "after this shift the barcode can be appended without re-running the tests of "+strings.Join(stale, ", ")+staleNote+": an earlier verdict (ban, reverse complement or filter) is stale for the shifted window")
 	}
 	if nShift == 0 {
 		c.undecided("RETEST", "shifts", cb.Pos(), "no window shift found")
